@@ -1,14 +1,20 @@
 use crate::util::Tier;
 pub mod c09;
 pub mod c10;
+pub mod c11;
 pub mod c12;
+pub mod c13;
+pub mod c14;
 pub mod lattice;
 
 pub fn run(prop: &str, tier: Tier, seed: u64) -> i32 {
     match prop {
         "C09" => c09::run(tier, seed),
         "C10" => c10::run(tier, seed),
+        "C11" => c11::run(tier, seed),
         "C12" => c12::run(tier, seed),
+        "C13" => c13::run(tier, seed),
+        "C14" => c14::run(tier, seed),
         _ => {
             eprintln!("unknown property {prop}");
             3
